@@ -104,7 +104,7 @@ def c12fl (a : List String) (obs : String) : String × String :=
     let steps := (script.splitOn ";").length
     -- model of wsflate.Reader over flate's reader: inflate (out ++ 9-byte tail)
     let (back, e) := flRead out
-    let model := s!"{",".intercalate (List.replicate steps "nil")} out={getF obs "out"} back={Bytes.toHex back} rerr={if e == .final then "nil" else endStr e}"
+    let model := s!"{",".intercalate (List.replicate steps "nil")} out={getF obs "out"} back={Bytes.toHex back} rerr={if e == .final then "nil" else endStr e} hback={Bytes.toHex back} herr={if e == .final then "nil" else endStr e}"
     -- independent decoder on the library's output with the RFC 7692 tail appended
     let (plain, e2) := inflate (out ++ compressionTail)
     let verdict :=
@@ -112,6 +112,7 @@ def c12fl (a : List String) (obs : String) : String × String :=
       else if !(e2 == .boundary || e2 == .final) then s!"bad:output+tail-is-not-a-complete-deflate-stream-{endStr e2}"
       else if hexOrEmpty (getF obs "back") != msg then "bad:reader-does-not-recover-the-message"
       else if getF obs "rerr" != "nil" then "bad:reader-error-on-own-output"
+      else if hexOrEmpty (getF obs "hback") != msg || getF obs "herr" != "nil" then "bad:Decompress-helper-does-not-recover-the-message"
       else "ok"
     (model, verdict)
   | _ => ("BADOP", "skip")
